@@ -200,7 +200,7 @@ def upperTighter? (m : Num) (incl : Bool) : Option Bound → Option Bool
 
 /-- `assertConsistentBounds`: `some false` = panic -/
 def consistent? : Option Bound → Option Bound → Option Bool
-  | some lo, some hi => if lo.incl != hi.incl then some (lt lo.v hi.v) else le? lo.v hi.v
+  | some lo, some hi => if lo.incl && hi.incl then le? lo.v hi.v else some (lt lo.v hi.v)
   | _, _ => some true
 
 /-- body of `NumberRangeLowerBound` for a known, non-null bound `m`; `store = false`
@@ -323,7 +323,7 @@ def stepPrefix (b : Builder) (p : String) : Res Builder :=
       else .ok { b with wip := .str n (if (bytes p).length > (bytes q).length then p else q) }
     if b.orig.isKnown && !b.orig.isNull then
       match b.orig.v with
-      | .s known => if overlapDiffers (bytes known) (bytes p) then .panic "inconsistent with known value" else cont
+      | .s known => if !(bytes p).isPrefixOf (bytes known) then .panic "inconsistent with known value" else cont
       | _ => .unmodelled
     else cont
   | _ => .panic "cannot refine string prefix"
@@ -457,7 +457,7 @@ def numberLowerBound (r : ValueRange) : Res (Option Num × Bool) :=
   | .number =>
     match r.raw with
     | .num _ (some l) _ => .ok (some l.v, l.incl)
-    | _ => .ok (some (.inf true), false)
+    | _ => .ok (some (.inf true), true)
   | _ => .panic "NumberLowerBound for non-number"
 
 def numberUpperBound (r : ValueRange) : Res (Option Num × Bool) :=
@@ -466,7 +466,7 @@ def numberUpperBound (r : ValueRange) : Res (Option Num × Bool) :=
   | .number =>
     match r.raw with
     | .num _ _ (some h) => .ok (some h.v, h.incl)
-    | _ => .ok (some (.inf false), false)
+    | _ => .ok (some (.inf false), true)
   | _ => .panic "NumberUpperBound for non-number"
 
 def stringPrefix (r : ValueRange) : Res String :=
@@ -685,10 +685,10 @@ def includes (r : ValueRange) (v : Value) : Res Tri :=
       -- bounds as the accessors report them; `>=` is `GreaterThan.Or(Equals)`
       let (lv, li) := match lo with
         | some l => (l.v, l.incl)
-        | none => (Num.inf true, false)
+        | none => (Num.inf true, true)
       let (hv, hi') := match hi with
         | some h => (h.v, h.incl)
-        | none => (Num.inf false, false)
+        | none => (Num.inf false, true)
       match (if li then ge? x lv else some (gt x lv)), (if hi' then le? x hv else some (lt x hv)) with
       | some a, some b => .ok (if !a || !b then .f else .u)
       | _, _ => .unmodelled
